@@ -122,8 +122,8 @@ Proof.
   - right. left. split; [exact Hc|]. exists p. exact (g_cts _ _ G _ Hi).
   - right. right. left. split; [exists ks'; exact (g_csl _ _ G _ Hi) | exists p, ttl, m, secs; exact (g_cts _ _ G _ Hj)].
   - right. right. right. exists p, ttl, m, secs. split; [exact (g_cts _ _ G _ Hi)|]. split; [exact Hm|].
-    intros k Hk. destruct (Hs k Hk) as (ks' & l & m' & I1 & I2 & I3).
-    exists ks', l, m'. split; [exact (g_csl _ _ G _ I1)|]. split; assumption.
+    intros k Hk. destruct (Hs k Hk) as (ks' & l & m' & I1 & I2 & I3 & I4).
+    exists ks', l, m'. split; [exact (g_csl _ _ G _ I1)|]. split; [assumption |]. split; assumption.
 Qed.
 
 Theorem commit_ts_bounds_holds evs s0 : run evs = Some s0 -> commit_ts_bounds evs.
@@ -301,11 +301,19 @@ Proof.
   exists p, ttl, m, secs. split; [exact (g_cts _ _ G _ Hi) | exact Hs].
 Qed.
 
+Theorem force_only_after_nonasync_holds evs s0 : run evs = Some s0 -> force_only_after_nonasync evs.
+Proof.
+  intros R pre post r T p caller cur rbine respess E.
+  destruct (at_event _ _ _ _ _ R E) as (v & v' & [G A] & St).
+  cbn [vstep] in St. destruct St as [_ [Hf _]]. destruct (Hf eq_refl) as (ks & l & k & I1 & I2).
+  exists ks, l, k. split; [exact (g_csl _ _ G _ I1) | exact I2].
+Qed.
+
 Theorem accept_sound : forall evs s, run evs = Some s ->
   commit_after_all_prewrites evs /\ secondaries_after_primary evs /\
   no_rollback_after_possible_commit evs /\ resolve_uses_reported_status evs /\
   commit_ts_bounds evs /\ expire_only_expired evs /\ told_ok_after_commit evs /\
-  undetermined_only_if evs /\ told_err_only_if evs /\ csl_only_listed evs.
+  undetermined_only_if evs /\ told_err_only_if evs /\ csl_only_listed evs /\ force_only_after_nonasync evs.
 Proof.
   intros evs s R.
   split; [eapply commit_after_all_prewrites_holds; eauto|].
@@ -317,7 +325,8 @@ Proof.
   split; [eapply told_ok_after_commit_holds; eauto|].
   split; [eapply undetermined_only_if_holds; eauto|].
   split; [eapply told_err_only_if_holds; eauto|].
-  eapply csl_only_listed_holds; eauto.
+  split; [eapply csl_only_listed_holds; eauto|].
+  eapply force_only_after_nonasync_holds; eauto.
 Qed.
 
 (* if every commit-point request sent before [told] has its reply before [told], the answer is
